@@ -83,11 +83,34 @@ def bit_origins(term, cons, org_in, cname, lo, hi):
     return out
 
 
-def observe(chk, F):
+def observe(chk, F, tier='thorough'):
     cfg = F.cfg
-    model, spec, P = scanners.product(F, 'polling')
-    org = origins_fixpoint(P)
+    model, spec, P0, allp = scanners.product(F, 'polling')
     fk = model.sub_key('feed')
+    merged, order = {}, []
+    rank = {'proved': 0, 'unproven': 1, 'refuted': 2}
+    labels = set()
+    for k in sorted(allp):
+        if tier != 'thorough' and k not in (0, 15):
+            continue          # the product (all 16 channels) already ties every channel to the same automaton
+        res, org = observe_channel(F, spec, allp[k], cfg)
+        labels |= {o for d in org.values() for s in d.values() for o in s}
+        for okey, (status, why, found) in res:
+            if okey not in merged:
+                order.append(okey)
+                merged[okey] = (status, why, found)
+            elif rank[status] > rank[merged[okey][0]]:
+                merged[okey] = (status, why, found)
+    for okey in order:
+        status, why, found = merged[okey]
+        chk.ob(okey, 'token accounting on the transition rows', status, subject=fn_subject(F, fk),
+               expected='provenance / completeness / linearity / no-loss / shape clauses of C14', found=found, why=why)
+    chk.extra['origin_labels'] = sorted(labels)
+
+
+def observe_channel(F, spec, P, cfg):
+    org = origins_fixpoint(P)
+    res = []
     for key in P.order:
         cs, ss, cons, label = P.pairs[key]
         tag = ss[0]
@@ -101,7 +124,7 @@ def observe(chk, F):
             status, why = 'proved', ''
 
             def bad(txt):
-                return 'refuted', 'state %s, input %s: %s' % (A.typestate_label(F, cs), cname, txt)
+                return 'refuted', 'channel %d, state %s, input %s: %s' % (P.channel, A.typestate_label(F, cs), cname, txt)
             for r in rows:
                 outs = r.outputs
                 cons_o = r.cons_out
@@ -121,7 +144,7 @@ def observe(chk, F):
                 pending_reported = 0
                 for m in outs:
                     ch = H.scalar_of(m.get('channel'))
-                    want_ch = A.POLL_CH if kind == 'poll' else H.t_low_nibble(A.CUR_STATUS, cons_o)
+                    want_ch = C(P.channel) if kind == 'poll' else H.t_low_nibble(A.CUR_STATUS, cons_o)
                     if ch is None or not H.same(ch.term, want_ch, cons_o):
                         status, why = bad('reported channel is not the channel of the triggering call')
                     num = H.scalar_of(m.get('number'))
@@ -168,9 +191,8 @@ def observe(chk, F):
                     else:
                         if pending_reported != 0 or not r.identity:
                             status, why = bad('pending controller-6 value touched by a non-contributing input')
-            chk.ob(okey, 'token accounting on the transition rows', status, subject=fn_subject(F, fk),
-                   expected='provenance / completeness / linearity / no-loss / shape clauses of C14', found=[scanners.describe_row(F, r) for r in rows][:2], why=why)
-    chk.extra['origin_labels'] = sorted({o for d in org.values() for s in d.values() for o in s})
+            res.append((okey, (status, why, [scanners.describe_row(F, r) for r in rows][:2])))
+    return res, org
 
 
 def run(tier, cmd):
@@ -188,5 +210,5 @@ def run(tier, cmd):
     for cfg, F in sorted(Fs.items()):
         guarded(chk, '%s/product/%s' % (PID, cfg), 'product with the reference automaton',
                 lambda F=F: scanners.cell_obligations(chk, F, 'polling', 'product with the reference automaton'))
-        guarded(chk, '%s/accounting/%s' % (PID, cfg), 'token accounting on the transition rows', lambda F=F: observe(chk, F))
+        guarded(chk, '%s/accounting/%s' % (PID, cfg), 'token accounting on the transition rows', lambda F=F: observe(chk, F, tier))
     return chk.finish()
